@@ -148,6 +148,11 @@ func (b *opBuild) sign() {
 	b.JWS = signCompact(b.SignKey, b.Header, []byte(refJCS(b.Signed)), 0)
 }
 
+// signText signs the given text as payload (a spelling of the signed data other than the canonical one).
+func (b *opBuild) signText(payload []byte) {
+	b.JWS = signCompact(b.SignKey, b.Header, payload, 0)
+}
+
 // replacePayload keeps the existing signature and header segment but swaps in the current signed payload
 // ("re-encoded without re-signing").
 func (b *opBuild) replacePayload() {
